@@ -1331,7 +1331,11 @@ def _model_to_sbml(
         specie.setCompartment(metabolite.compartment)
         s_fbc: "libsbml.FbcSpeciesPlugin" = specie.getPlugin("fbc")
         if metabolite.charge is not None:
-            s_fbc.setCharge(metabolite.charge)
+            charge = metabolite.charge
+            # fbc charges are integers, a float is silently written as 0
+            if charge == int(charge):
+                charge = int(charge)
+            s_fbc.setCharge(charge)
         if metabolite.formula is not None:
             s_fbc.setChemicalFormula(metabolite.formula)
 
